@@ -473,6 +473,11 @@ def normalise(texts):
         if vmap or fmap:
             apply_members(parsed, vmap, fmap)
             texts = [json.dumps(p) for p in parsed]
+            # variant names also occur inside paths (discriminant constants `Adt::Variant::{constant#0}`, constructor fns)
+            pmap = {'%s::%s' % (a, v): '%s::%s' % (a, r) for (a, v), r in vmap.items()}
+            if pmap:
+                texts = rewrite(texts, pmap)
+                parsed = [json.loads(x) for x in texts]
             log += mlog
     ref = load_ref()
     if ref:
